@@ -1,8 +1,8 @@
 (* C17 — Chunked transfer coding decodes exactly and rejects invalid chunk
    sizes.  Statements only; proofs in Proofs/ChunkProofs.v, ChunkRoundtrip.v. *)
 From Coq Require Import Init.Byte.
-From Hio Require Import Base.Prelude Model.HttpLine Model.Chunk
-  Proofs.HttpLineProofs Proofs.ChunkProofs Proofs.ChunkRoundtrip.
+From Hio Require Import Base.Prelude Model.HttpLine Model.Chunk Model.HttpMsg
+  Proofs.HttpLineProofs Proofs.ChunkProofs Proofs.ChunkRoundtrip Proofs.HttpMsgProofs Proofs.HttpMsgClosed.
 
 (* Strictness.  A chunk-size line whose size field (the text before the first
    ';', blanks and tabs around it removed) is not 1*HEXDIG makes parseChunk
@@ -103,6 +103,33 @@ Example C17_roundtrip_example :
            d_trails := [(of_bytes [x78;x2d;x74], of_bytes [x77]); (of_bytes [x79], [])];
            d_rest := of_bytes [x7a;x7a] |}.
 Proof. vm_compute. reflexivity. Qed.
+
+(* Closure.  Inside the message parsers (Requestant and Respondent) the chunk
+   decoder runs with a .closed flag.  If the bytes already buffered hold the
+   rest of the chunked message -- i.e. the parser with .closed False completes
+   the message from them -- then the parser with .closed True decodes exactly
+   the same message (body, parameters, trailers, persistence) and leaves the
+   same bytes behind.  Closure only shows once the buffer has run dry before
+   the last-chunk. *)
+Theorem C17_closed_irrelevant_while_data : forall k f s b x,
+  chunk_phase s ->
+  run_to_msg (msg_stage k) f s b = Some x ->
+  run_to_msg (msg_stage_closed k) f s b = Some x.
+Proof. exact closed_irrelevant_while_data. Qed.
+Print Assumptions C17_closed_irrelevant_while_data.
+
+(* Non-vacuity: a response whose head and first bytes were parsed, then the
+   rest (two chunks, last-chunk, trailer) arrives together with the closure. *)
+Example C17_closed_example :
+  let head := of_bytes [x48;x54;x54;x50;x2f;x31;x2e;x31;x20;x32;x30;x30;x20;x4f;x4b;x0d;x0a;
+     x54;x72;x61;x6e;x73;x66;x65;x72;x2d;x45;x6e;x63;x6f;x64;x69;x6e;x67;x3a;x20;x63;x68;x75;x6e;x6b;x65;x64;x0d;x0a;x0d;x0a;
+     x33;x0d;x0a;x61;x62] in
+  let rest := of_bytes [x63;x0d;x0a;x34;x0d;x0a;x64;x65;x66;x67;x0d;x0a;x30;x0d;x0a;x54;x3a;x20;x31;x0d;x0a;x0d;x0a] in
+  let h := run_ops (Resp false) [OData head; OParse; OData rest; OClose; OParse] in
+  map g_body (somes (hs_out h)) = [of_bytes [x61;x62;x63;x64;x65;x66;x67]] /\
+  map g_trails (somes (hs_out h)) = [Some [(of_bytes [x74], of_bytes [x31])]] /\
+  hs_p h = Live (start_state {| cy_parms := Some []; cy_trails := Some [(of_bytes [x74], of_bytes [x31])] |}) [].
+Proof. vm_compute. repeat split. Qed.
 
 (* Non-vacuity: the sizes the unfixed code accepted (D16) are rejected, plain
    ones are read exactly. *)
